@@ -57,7 +57,7 @@ let () = each_line (fun line ->
   let out =
     try
       match String.split_on_char ' ' line with
-      | "walk" :: tr :: _ :: hb :: rt :: nulls :: dis :: selfoff :: _ ->
+      | "walk" :: tr :: _ :: hb :: rt :: nulls :: dis :: selfoff :: more ->
         let t = parse_tree tr in
         let mem l a = List.mem a l in
         (* the case lists addresses relative to the root "/": the buffer's content comes in front *)
@@ -66,7 +66,16 @@ let () = each_line (fun line ->
         let abs l = List.map (fun a -> pre @ (match a with [] -> [] | _ :: t -> t)) l in
         let nl = abs (addr_list nulls) and dl = abs (addr_list dis) and sl = abs (addr_list selfoff) in
         let o = if rt = "1" then Some { o_null = mem nl; o_disabled = mem dl; o_selfoff = mem sl } else None in
-        (match walk o t (bytes_of_hex hb) with
+        (* tg=<addresses of the toggles that answer false>: the pruning oracle is not taken
+           from the case (dis / selfoff, the generator's own evaluation) but computed by the
+           model of port_is_enabled (Ports/EnabledModel.v) from the toggles' answers *)
+        let tg = List.fold_left (fun acc f ->
+                   if String.length f >= 3 && String.sub f 0 3 = "tg="
+                   then Some (abs (addr_list (String.sub f 3 (String.length f - 3)))) else acc) None more in
+        let res = match tg, rt with
+          | Some offl, "1" -> walk_rt (fun tbl n -> not (List.mem (tbl @ n) offl)) nl t (bytes_of_hex hb)
+          | _ -> walk o t (bytes_of_hex hb) in
+        (match res with
          | WOk (reps, b) ->
            Printf.sprintf "w=%s buf=%s ok=%d"
              (if reps = [] then "-" else
